@@ -2,6 +2,7 @@ package simrt
 
 import (
 	"fmt"
+	"runtime/debug"
 	"strings"
 	"testing"
 	"testing/synctest"
@@ -15,6 +16,9 @@ import (
 // shutdown path) make the runtime report a deadlock for the bubble; that report
 // is swallowed here (leaked=true) because f has already produced its verdict.
 // A panic raised by f itself is re-raised.
+// LastPanicStack is the stack of the last panic InBubble re-raised.
+var LastPanicStack string
+
 func InBubble(t *testing.T, f func()) (leaked bool) {
 	var fpanic interface{}
 	done := false
@@ -38,6 +42,10 @@ func InBubble(t *testing.T, f func()) (leaked bool) {
 			defer func() {
 				if r := recover(); r != nil {
 					fpanic = r
+					if _, ok := r.(HarnessError); !ok {
+						// keep where it happened: the re-raise below loses the stack
+						LastPanicStack = string(debug.Stack())
+					}
 				}
 				done = true
 			}()
